@@ -41,7 +41,16 @@ def main():
                 rep = json.load(f)
             return mod.replay(chk, rep)
         mod.run(chk, args.tier, args.scale)
-        return chk.finish()
+        rc = chk.finish()
+        if rc == vcommon.EXIT_INCONCLUSIVE and not os.environ.get("VERIF_NO_RETRY"):
+            # an inconclusive run (a watchdog on a loaded machine, too few events observed) is repeated once from scratch before
+            # it is reported; a violation is never retried
+            print("RETRY: the run was inconclusive; repeating it once")
+            chk = vcommon.Check(prop, args.tier, getattr(mod, "LEVEL", "exploration"))
+            chk.extra["retried_after_inconclusive"] = True
+            mod.run(chk, args.tier, args.scale)
+            rc = chk.finish()
+        return rc
     except build.BuildError as e:
         print("BUILD FAILED (inconclusive):", str(e)[-3000:])
         return vcommon.EXIT_INCONCLUSIVE
